@@ -215,8 +215,10 @@ package parsers
 //@   ensures[C03,C10] result == nil ==> c.currentTokenIndex == len(c.initialTokens)
 //@   nopanic
 //
+// "text verbatim": what is tokenized is the template with blanks, tabs and line breaks - nothing else - removed at both ends
 //@ func (c *MustacheParser) tokenizeMustache
 //@   requires c != nil && c.tokenizer != nil
+//@   callsite[C10] TokenizeBuffer requires buffer == ext("strings.Trim", "string", old(mustache), " \t\r\n")
 //@   ensures[C03] fresh(result) && (forall i int :: 0 <= i && i < len(result) ==> result[i] != nil && allocated(result[i]))
 //@   ensures[C03] c.initialTokens == old(c.initialTokens) && c.resultTokens == old(c.resultTokens) && c.currentTokenIndex == old(c.currentTokenIndex)
 //@   assigns any(tokenizers.AbstractTokenizer).Scanner, any(tokenizers.AbstractTokenizer).ReaderVersion, any(tokenizers.AbstractTokenizer).NextTokenValue, any(tokenizers.AbstractTokenizer).LastTokenType,
